@@ -27,6 +27,70 @@ struct SwitchFs {
     /// while `on`: the write with this index (0-based) among the writes to WAL files fails, once
     fail_wal_write: Option<u64>,
     wal_writes: Arc<AtomicU64>,
+    /// while `on`: the thread that creates the table file with this index (0-based, among the
+    /// table files created while `on`) is parked inside `create_file` until the gate is released
+    park_at_table_create: Vec<u64>,
+    table_creates: AtomicU64,
+    gate: Arc<Gate>,
+}
+
+fn trace() -> bool {
+    std::env::var("RDBCHECK_C17_TRACE").is_ok()
+}
+
+/// development aid: RDBCHECK_C17_TRACE=<file> appends what the gate saw and every history
+fn trace_line(s: String) {
+    use std::io::Write;
+    if let Ok(p) = std::env::var("RDBCHECK_C17_TRACE") {
+        if let Ok(mut f) = std::fs::OpenOptions::new().create(true).append(true).open(p) {
+            let _ = writeln!(f, "{}", s);
+        }
+    }
+}
+
+/// Parks one thread of the subject at a chosen filesystem call (blocking under the controlled
+/// runtime, so the other threads get scheduled) and tells the harness when it has arrived.
+#[derive(Default)]
+struct Gate {
+    /// (threads that have arrived at a stage so far, stages released so far, the gated actor is closing)
+    st: shuttle::sync::Mutex<(u32, u32, bool)>,
+    cv: shuttle::sync::Condvar,
+}
+
+impl Gate {
+    /// the calling thread has reached stage `k` (0-based) and stays there until it is released
+    fn park(&self, k: u32) {
+        let mut g = self.st.lock().unwrap();
+        if trace() {
+            trace_line(format!("[c17] a thread arrives at gate stage {} (stages released already: {})", k, g.1));
+        }
+        g.0 = g.0.max(k + 1);
+        self.cv.notify_all();
+        while g.1 <= k {
+            g = self.cv.wait(g).unwrap();
+        }
+    }
+    fn arrived(&self, k: u32) -> bool {
+        self.st.lock().unwrap().0 > k
+    }
+    fn release(&self, k: u32) {
+        let mut g = self.st.lock().unwrap();
+        g.1 = g.1.max(k + 1);
+        self.cv.notify_all();
+    }
+    /// release every stage and tell the retrying opener that the gated actor is about to close
+    fn release_all_and_announce_close(&self) {
+        let mut g = self.st.lock().unwrap();
+        g.1 = u32::MAX;
+        g.2 = true;
+        self.cv.notify_all();
+    }
+    fn wait_closing(&self) {
+        let mut g = self.st.lock().unwrap();
+        while !g.2 {
+            g = self.cv.wait(g).unwrap();
+        }
+    }
 }
 
 /// A file handle whose writes are counted (WAL files only) and may be made to fail.
@@ -118,6 +182,12 @@ impl FileSystem for SwitchFs {
     }
     fn create_file(&self, p: &Path, append: bool) -> io::Result<Box<dyn RandomAccessFile>> {
         self.sw();
+        if self.on.load(Ordering::SeqCst) && !self.park_at_table_create.is_empty() && p.extension().map(|e| e == "rdb").unwrap_or(false) {
+            let n = self.table_creates.fetch_add(1, Ordering::SeqCst);
+            if let Some(stage) = self.park_at_table_create.iter().position(|&k| k == n) {
+                self.gate.park(stage as u32);
+            }
+        }
         let f = self.inner.create_file(p, append)?;
         if self.fail_wal_write.is_some() && p.extension().map(|e| e == "log").unwrap_or(false) {
             return Ok(Box::new(CountedFile {
@@ -166,6 +236,15 @@ pub enum Actor {
     OpenErrIfExists,
     /// open with create_if_missing off (fails on an absent database); put; close
     OpenNoCreate,
+    /// open with reuse_log_files off (the recovery turns the WAL into a level-0 table); put; close
+    OpenNoReuse,
+    /// like `OpenNoReuse`, but after the open the actor waits until the background thread is parked
+    /// at the program's gate (inside the table compaction that the open has set off); it then
+    /// puts (the third put rotates the memtable), opens the gate and closes at once
+    OpenNoReuseGated,
+    /// tries to open once; then, from the moment the gated actor starts to close, again and again
+    /// (yielding in between) until it succeeds; keeps the handle
+    OpenRetryHold,
 }
 
 #[derive(Clone, Copy, Debug, PartialEq, Eq)]
@@ -174,6 +253,11 @@ pub enum Initial {
     Closed,
     /// the main thread holds an open handle while the actors run
     Open,
+    /// closed, with three overlapping level-0 tables and a non-empty WAL: the next open without
+    /// log reuse adds the fourth level-0 table, so a table compaction starts in the background
+    /// of that open and is still running (or has just flushed the memtable its owner rotated) when
+    /// the owner closes
+    ClosedCompactionDue,
 }
 
 #[derive(Clone, Debug)]
@@ -183,11 +267,14 @@ pub struct P17 {
     pub actors: Vec<Actor>,
     /// the write with this index among the actors' writes to WAL files fails once
     pub fail_wal_write: Option<u64>,
+    /// the thread creating the table file with this index (among those created while the actors
+    /// run) is parked there until the gated actor releases it
+    pub park_at_table_create: Vec<u64>,
 }
 
 impl P17 {
     pub fn describe(&self) -> Value {
-        json!({"program": self.name, "initial": format!("{:?}", self.initial), "actors": self.actors.iter().map(|a| format!("{:?}", a)).collect::<Vec<_>>(), "failing_wal_write_index": self.fail_wal_write})
+        json!({"program": self.name, "initial": format!("{:?}", self.initial), "actors": self.actors.iter().map(|a| format!("{:?}", a)).collect::<Vec<_>>(), "failing_wal_write_index": self.fail_wal_write, "background_thread_parked_at_table_create_index": self.park_at_table_create})
     }
 }
 
@@ -196,6 +283,7 @@ fn opts_for(fs: &Arc<SwitchFs>, a: Actor) -> DbOptions {
     match a {
         Actor::OpenErrIfExists => o.error_if_exists = true,
         Actor::OpenNoCreate => o.create_if_missing = false,
+        Actor::OpenNoReuse | Actor::OpenNoReuseGated => o.reuse_log_files = false,
         _ => {}
     }
     o
@@ -241,6 +329,9 @@ fn body(p: &P17) -> Option<(String, String)> {
         on: AtomicBool::new(false),
         fail_wal_write: p.fail_wal_write,
         wal_writes: Arc::new(AtomicU64::new(0)),
+        park_at_table_create: p.park_at_table_create.clone(),
+        table_creates: AtomicU64::new(0),
+        gate: Arc::new(Gate::default()),
     });
     let alive = Arc::new(AtomicI64::new(0));
     let max_alive = Arc::new(AtomicI64::new(0));
@@ -252,7 +343,7 @@ fn body(p: &P17) -> Option<(String, String)> {
     let get = |db: &DB, k: &[u8]| db.get(ReadOptions::default(), k).ok();
     let mut owner: Option<DB> = None;
     match p.initial {
-        Initial::Absent => {}
+        Initial::Absent | Initial::ClosedCompactionDue => {}
         Initial::Closed | Initial::Open => {
             let db = match DB::open(opts(&fs)) {
                 Ok(db) => db,
@@ -266,6 +357,28 @@ fn body(p: &P17) -> Option<(String, String)> {
                 max_alive.fetch_max(1, Ordering::SeqCst);
                 owner = Some(db);
             }
+        }
+    }
+    if p.initial == Initial::ClosedCompactionDue {
+        // four incarnations without log reuse: each recovery turns the WAL its predecessor left
+        // behind into one more level-0 table (same key, so they overlap and stay in level 0)
+        for s in 0..4 {
+            let mut o = opts(&fs);
+            o.reuse_log_files = false;
+            let db = match DB::open(o) {
+                Ok(db) => db,
+                Err(e) => return Some(("C17.setup".into(), format!("setup open {} failed: {}", s, e))),
+            };
+            if let Err(e) = db.put(WriteOptions::default(), b"k0".to_vec(), format!("v{}", s).into_bytes()) {
+                return Some(("C17.setup".into(), format!("setup put {} failed: {}", s, e)));
+            }
+            if s == 3 {
+                let l0 = db.verif_layout().get(0).map(|l| l.len()).unwrap_or(0);
+                if l0 != 3 {
+                    return Some(("C17.setup".into(), format!("setup expected three level-0 tables, found {}", l0)));
+                }
+            }
+            drop(db);
         }
     }
     let owner_open_ret = tick();
@@ -291,7 +404,10 @@ fn body(p: &P17) -> Option<(String, String)> {
                     push("destroy", i, r.is_ok(), r.err().map(|e| e.to_string()).unwrap_or_default());
                     None
                 }
-                Actor::OpenPutClose | Actor::OpenHold | Actor::OpenErrIfExists | Actor::OpenNoCreate => {
+                Actor::OpenPutClose | Actor::OpenHold | Actor::OpenErrIfExists | Actor::OpenNoCreate | Actor::OpenNoReuse | Actor::OpenNoReuseGated | Actor::OpenRetryHold => {
+                    let mut attempt = 0u32;
+                    loop {
+                    attempt += 1;
                     let i = tick();
                     match DB::open(opts_for(&fs, a)) {
                         Ok(db) => {
@@ -315,8 +431,22 @@ fn body(p: &P17) -> Option<(String, String)> {
                                 }
                             }
                             probes.lock().unwrap().push((ai, db.verif_probe()));
-                            if a == Actor::OpenHold {
+                            if a == Actor::OpenHold || a == Actor::OpenRetryHold {
                                 return Some(db);
+                            }
+                            // stage 0: the background thread is inside the table compaction
+                            // (creating its output) before the actor writes anything
+                            let probe_own = db.verif_probe();
+                            let wait_stage = |k: u32| {
+                                // (or the background work has gone idle: then nobody will arrive)
+                                let mut spins = 0u32;
+                                while !fs.gate.arrived(k) && probe_own.background_work_pending() && spins < 100_000 {
+                                    shuttle::thread::yield_now();
+                                    spins += 1;
+                                }
+                            };
+                            if a == Actor::OpenNoReuseGated {
+                                wait_stage(0);
                             }
                             for j in 0..3 {
                                 let i = tick();
@@ -328,15 +458,34 @@ fn body(p: &P17) -> Option<(String, String)> {
                                 push("put", i, r.is_ok(), r.err().map(|e| e.to_string()).unwrap_or_default());
                             }
                             alive.fetch_sub(1, Ordering::SeqCst);
+                            if a == Actor::OpenNoReuseGated {
+                                // the memtable has been rotated: the compaction goes on, finds the
+                                // immutable memtable at its next entry and starts to flush it
+                                // (stage 1: it creates the flush output); only then the close begins
+                                fs.gate.release(0);
+                                wait_stage(1);
+                                fs.gate.release_all_and_announce_close();
+                            }
                             let i = tick();
                             drop(db);
                             push("close", i, true, String::new());
-                            None
+                            return None;
                         }
                         Err(e) => {
                             push("open", i, false, e.to_string());
-                            None
+                            if a == Actor::OpenNoReuseGated {
+                                fs.gate.release_all_and_announce_close();
+                            }
+                            if a != Actor::OpenRetryHold || attempt >= 40 {
+                                return None;
+                            }
+                            if attempt == 1 {
+                                fs.gate.wait_closing();
+                            } else {
+                                shuttle::thread::yield_now();
+                            }
                         }
+                    }
                     }
                 }
             }
@@ -356,6 +505,9 @@ fn body(p: &P17) -> Option<(String, String)> {
         e.sort_by_key(|e| e.invoke);
         e.iter().map(|e| format!("A{} {} [{}..{}] -> {}", e.actor, e.what, e.invoke, e.ret, if e.ok { "Ok".to_string() } else { format!("Err({})", e.err.chars().take(40).collect::<String>()) })).collect::<Vec<_>>().join(" | ")
     };
+    if trace() {
+        trace_line(format!("[c17] {} table files created while the actors ran; history: {}", fs.table_creates.load(Ordering::SeqCst), hist()));
+    }
     let mut verdict: Option<(String, String)> = None;
     if let Some(m) = overlap.lock().unwrap().take() {
         verdict = Some(("C17.open_during_close".into(), format!("{}: {}", m, hist())));
@@ -443,6 +595,17 @@ fn body(p: &P17) -> Option<(String, String)> {
             match DB::open(opts(&fs)) {
                 Ok(db) => {
                     // two instances active on one path leave duplicate / overlapping file records
+                    // (the layout and the descriptor are compared with each other: wait until the
+                    // background work this open may have started - a compaction that was due - has
+                    // gone idle, or a version installed between the two reads looks like a mismatch)
+                    let probe = db.verif_probe();
+                    let mut spins = 0u32;
+                    while probe.background_work_pending() && spins < 1_000_000 {
+                        if parking_lot::verif_rt::in_execution() {
+                            shuttle::thread::yield_now();
+                        }
+                        spins += 1;
+                    }
                     let layout = db.verif_layout();
                     if let Err(v) = crate::world::check_layout_wellformed(&db, &layout, true) {
                         verdict = Some(("C17.shared_state_damaged".into(), format!("after everybody closed the database's table layout is ill-formed ({}: {}) — two instances were active on the path at once ({})", v.clause, v.detail, hist())));
@@ -482,8 +645,8 @@ fn body(p: &P17) -> Option<(String, String)> {
 
 pub fn programs() -> Vec<P17> {
     use Actor::*;
-    let mk = |name: &str, initial: Initial, actors: Vec<Actor>| P17 { name: name.to_string(), initial, actors, fail_wal_write: None };
-    let mkf = |name: &str, initial: Initial, actors: Vec<Actor>, k: u64| P17 { name: name.to_string(), initial, actors, fail_wal_write: Some(k) };
+    let mk = |name: &str, initial: Initial, actors: Vec<Actor>| P17 { name: name.to_string(), initial, actors, fail_wal_write: None, park_at_table_create: vec![] };
+    let mkf = |name: &str, initial: Initial, actors: Vec<Actor>, k: u64| P17 { name: name.to_string(), initial, actors, fail_wal_write: Some(k), park_at_table_create: vec![] };
     vec![
         // the owner's third put rotates the memtable (a flush is scheduled) and its WAL append
         // fails: the close that follows must still hold the lock until the flush has ended
@@ -492,6 +655,14 @@ pub fn programs() -> Vec<P17> {
         mk("open:open||open", Initial::Open, vec![OpenHold, OpenPutClose]),
         mk("open:open||destroy", Initial::Open, vec![OpenPutClose, Destroy]),
         mk("open:destroy||destroy", Initial::Open, vec![Destroy, Destroy]),
+        // close while a table compaction is running in the background of the closing instance
+        mk("compaction-due:open-noreuse||hold", Initial::ClosedCompactionDue, vec![OpenNoReuse, OpenHold]),
+        // the same with the compaction thread parked twice: where it creates its output table, until
+        // the owner has rotated its memtable; and where it creates the table of the flush of that
+        // memtable (which it does in the middle of its merge loop), until the owner starts to close.
+        // The flush then ends and signals it while the compaction is still at work: the closing
+        // owner must go on waiting. The second actor keeps trying to open all the while
+        P17 { name: "compaction-due:open-noreuse(compaction parked until close)||retry-hold".to_string(), initial: Initial::ClosedCompactionDue, actors: vec![OpenNoReuseGated, OpenRetryHold], fail_wal_write: None, park_at_table_create: vec![1, 2] },
         mk("closed:hold||hold", Initial::Closed, vec![OpenHold, OpenHold]),
         mk("closed:hold||hold||hold", Initial::Closed, vec![OpenHold, OpenHold, OpenHold]),
         mk("absent:hold||hold", Initial::Absent, vec![OpenHold, OpenHold]),
@@ -608,7 +779,7 @@ fn replay(p: &P17, choices: &[usize]) -> Option<String> {
 fn bound_for(p: &P17, bound: (usize, usize), thorough: bool) -> (usize, usize) {
     // (also the programs with the most schedules per deviation: two full open/put/close bodies,
     // and the attempts that fail for a reason of their own)
-    let heavy = p.name.contains("open-eie") || p.name.contains("open-nocreate") || p.name == "open:open||open" || p.name.ends_with("||openclose");
+    let heavy = p.name.starts_with("compaction-due") || p.name.contains("open-eie") || p.name.contains("open-nocreate") || p.name == "open:open||open" || p.name.ends_with("||openclose");
     if !thorough && (p.actors.len() >= 3 || heavy) {
         (bound.0, bound.1 - 1)
     } else {
